@@ -30,6 +30,8 @@ ASSUMPTIONS = [
     "identifier sets include suffix / prefix / substring families ('a1','ba1','cba1','a1b','1a','a',…) in every order; identifiers containing a dot or the "
     "store suffix ('x.fasta' vs 'x', 'sojson') are left to C13 (open findings C13-identifier-spelling-not-normalised / C13-suffix-substring-rewriting)",
     "worker crashes, unpicklable results and MPI execution are not exhibited",
+    "inputs are path strings (always wrapped in a source_proxy); falsy inputs (dropped by _proxy_input) and inputs that carry their own .source (not proxied) are not generated",
+    "membership test of _apply_to: completed records only for DataStoreDirectory (model hasDone), any record for DataStoreSqlite (model hasAny); the resume theorems are for the former",
     "traceback text is compared by its last line only",
 ]
 
@@ -105,7 +107,8 @@ def build_inner(spec, with_sleep):
 def model_steps(spec):
     steps = [dict(name=0, kind="loader", skip=True, accepts=[], rules=[[k, v] for k, v in spec["loader"]["rules"].items()], default=spec["loader"]["default"])]
     for i, st in enumerate(spec["steps"], 1):
-        steps.append(dict(name=i, kind="generic", skip=True, accepts=[2] if st["flavour"] == "a" else [2, 3],
+        fl = st["flavour"]  # 'a','ab' skip not-completed input (default); 'na','ns' are skip_not_completed=False steps
+        steps.append(dict(name=i, kind="generic", skip=fl in ("a", "ab"), accepts={"a": [2], "na": [2], "ab": [2, 3], "ns": []}[fl],
                           rules=[[k, v] for k, v in st["rules"].items()], default=st["default"]))
     return list(reversed(steps))
 
@@ -186,7 +189,7 @@ def observe_store(dstore, kind):
 # --------------------------------------------------------------------------
 # one real apply_to run
 # --------------------------------------------------------------------------
-def run_apply(ctx, tag, spec, inputs_members, store_kind, parallel, max_workers, outdir=None, mode="w", par_kw=None):
+def run_apply(ctx, tag, spec, inputs_members, store_kind, parallel, max_workers, outdir=None, mode="w", par_kw=None, id_from_source=None):
     from cogent3.app.data_store import DataStoreDirectory
     from cogent3.app.io import write_db, write_json
     from cogent3.app.sqlite_data_store import DataStoreSqlite
@@ -214,6 +217,8 @@ def run_apply(ctx, tag, spec, inputs_members, store_kind, parallel, max_workers,
     t = time.time()
     try:
         kw = dict(parallel=True, par_kw=dict(par_kw or {}, max_workers=max_workers)) if parallel else {}
+        if id_from_source is not None:
+            kw["id_from_source"] = id_from_source
         app.apply_to(paths, logger=False, show_progress=False, **kw)
     except Exception as e:  # noqa
         exc = f"{type(e).__name__}: {e}"[:200]
@@ -316,6 +321,10 @@ def _runs(ctx, budget):
     return runs
 
 
+def _contains(store_kind):
+    return "any" if store_kind == "sqlite" else "ok"
+
+
 def _order_positions(members_selected, order):
     pos = {_ident(m): i for i, m in enumerate(members_selected)}
     return [pos[o] for o in order if o in pos]
@@ -347,9 +356,10 @@ def correspondence(ctx):
         steps = model_steps(r["spec"])
         ms = r["members"]
         store = next(it)["store"] if r["pre"] else []
-        done = {e[0] for e in store if "ok" in e[1]}
+        # DataStoreSqlite: a stored not-completed record also makes _apply_to skip the input (model: hasAny); directory: completed only
+        done = {e[0] for e in store if "ok" in e[1] or r["store_kind"] == "sqlite"}
         selected = [m for m in ms if m not in done]
-        second.append(("apply", dict(ids=[[m, m] for m in ms], steps=steps, ident_ty=1, store=store, inputs=ms,
+        second.append(("apply", dict(ids=[[m, m] for m in ms], steps=steps, ident_ty=1, store=store, inputs=ms, contains=_contains(r["store_kind"]),
                                      order=_order_positions(selected, r["res"]["order"]))))
     for r, mr in zip(reqs, ctx.driver.batch(second)):
         out["evaluations"] += 1
@@ -378,7 +388,77 @@ def correspondence(ctx):
         if len(out["samples"]) < 6 and r["parallel"] and nonident:
             out["samples"].append(dict(inp, completion_order=order_ids, store=r["res"]["recs"], seconds=round(r["res"]["took"], 2)))
     _corr_calls(ctx, out)
+    _corr_alias(ctx, out)
     return out
+
+
+def _corr_alias(ctx, out):
+    """identifier function that is NOT injective (id_from_source maps several inputs to one identifier): the real apply_to must raise
+    ValueError('non-unique identifier …') exactly when Lean `select` returns none (two not-yet-completed inputs share an identifier; an
+    input whose identifier is already completed is skipped even when it is a duplicate), and otherwise write each record under idOf(input).
+    Serial runs, fresh or over a store pre-filled by a first run."""
+    from .c14_apps import member_index
+
+    rng = ctx.subrng("alias")
+    jobs = []
+    for i in range(ctx.budget(30, 300)):
+        n_rec = rng.randint(2, 6)
+        spec = gen_pipeline(rng, n_rec, allow_sleep=False, family=rng.random() < 0.3)
+        ms = list(spec["members"])
+        alias = {m: (rng.choice(ms) if rng.random() < (0.0 if i % 4 == 0 else 0.3) else m) for m in ms}
+        store_kind = rng.choice(["dir", "dir", "sqlite"])
+        tag = f"alias_{i}"
+
+        def id_from_source(src, alias=alias):
+            m = member_index(getattr(src, "unique_id", src))
+            return _ident(alias.get(m, m))
+
+        pre = None
+        if rng.random() < 0.5:
+            first = [m for m in ms if rng.random() < 0.5]
+            if first and len({alias[m] for m in first}) == len(first):
+                pre = first
+        outdir = None
+        pre_res = None
+        if pre:
+            pre_res = run_apply(ctx, tag, spec, pre, store_kind, False, 2, id_from_source=id_from_source)
+            outdir = pre_res["outdir"]
+        res = run_apply(ctx, tag, spec, ms, store_kind, False, 2, outdir=outdir, mode="a" if pre else "w", id_from_source=id_from_source)
+        jobs.append(dict(spec=spec, ms=ms, alias=alias, store_kind=store_kind, tag=tag, pre=pre, pre_res=pre_res, res=res))
+    ids = lambda j: [[m, j["alias"][m]] for m in j["ms"]]  # noqa: E731
+    firsts = ctx.driver.batch([("apply", dict(ids=ids(j), steps=model_steps(j["spec"]), ident_ty=1, store=[], inputs=j["pre"],
+                                              order=list(range(len(j["pre"]))))) for j in jobs if j["pre"]])
+    it = iter(firsts)
+    reqs = []
+    for j in jobs:
+        store = next(it)["store"] if j["pre"] else []
+        j["store0"] = store
+        done = {e[0] for e in store if "ok" in e[1] or j["store_kind"] == "sqlite"}
+        sel_ids = [j["alias"][m] for m in j["ms"] if j["alias"][m] not in done]
+        pos = {_ident(a): k for k, a in reversed(list(enumerate(sel_ids)))}
+        reqs.append(("apply", dict(ids=ids(j), steps=model_steps(j["spec"]), ident_ty=1, store=store, inputs=j["ms"], contains=_contains(j["store_kind"]),
+                                   order=[pos[o] for o in j["res"]["order"] if o in pos])))
+    for j, mr in zip(jobs, ctx.driver.batch(reqs)):
+        out["evaluations"] += 1
+        inp = dict(kind="alias", tag=j["tag"], store=j["store_kind"], members=j["ms"], alias=sorted(j["alias"].items()), first=j["pre"],
+                   spec=_spec_brief(j["spec"]))
+        exc = j["res"]["exc"] or ""
+        dup = len({j["alias"][m] for m in j["ms"]}) < len(j["ms"])
+        bump(out, "alias_case", ("resumed-" if j["pre"] else "fresh-") + ("dup-ids" if dup else "distinct") + ("-ValueError" if "err" in mr else ""))
+        if "err" in mr:
+            if not exc.startswith("ValueError: non-unique identifier"):
+                add_failure(out, "corr", "Lean select reports a duplicate identifier but the real apply_to did not raise ValueError", inp, mr, exc or j["res"]["recs"], confirmed=False)
+            else:
+                # nothing may have been written by the refused run
+                exp0 = {_ident(e[0]): canon_model(e[1]) for e in j["store0"]}
+                if exp0 != j["res"]["recs"]:
+                    add_failure(out, "corr", "apply_to refused duplicate identifiers but the store changed", inp, exp0, j["res"]["recs"], confirmed=False)
+                else:
+                    out["nontrivial"].add(("alias", j["tag"]))
+            continue
+        expected = {e[0]: canon_model(e[1]) for e in mr["store"]}
+        if _compare_run(out, "corr", j["spec"], j["ms"], j["res"], expected, "aliased identifiers: real store vs Lean applyTo", inp, "corr:alias:") and (dup or j["pre"]):
+            out["nontrivial"].add(("alias", j["tag"]))
 
 
 def _spec_brief(spec):
@@ -393,6 +473,13 @@ def _corr_calls(ctx, out):
     reqs, reals, inps = [], [], []
     for i in range(ctx.budget(150, 2000)):
         spec = gen_pipeline(rng, rng.randint(1, 6), allow_sleep=False)
+        if i % 2 == 1:
+            # steps declared with skip_not_completed=False (typed 'na' / untyped 'ns'): callChain's skipNC = false branches,
+            # `validate` on a not-completed value (class tag 0) and `main` receiving a NotCompleted
+            for st in spec["steps"]:
+                if rng.random() < 0.5:
+                    st["flavour"] = rng.choice(["na", "ns"])
+        bump(out, "call_noskip_steps", sum(1 for st in spec["steps"] if st["flavour"] in ("na", "ns")))
         app = build_inner(spec, False)
         steps = model_steps(spec)
         for m in spec["members"][:3]:
